@@ -184,8 +184,23 @@ APPLY_SAMPLES = [None, True, 1, -1, 99, 0.5, 'abc', 'xyz', '7', [1, 2], [2, 1, 3
                  sample_fn, ValueError, int]
 
 
+_APPLY_CACHE: Dict[int, list] = {}
+
+
 def apply_outcomes(spec) -> list:
-  """Behavioural probe: what apply() returns / raises on a fixed list of sample values."""
+  """Behavioural probe: what apply() returns / raises on a fixed list of sample values (cached for pool members)."""
+  if id(spec) in _APPLY_CACHE:
+    return _APPLY_CACHE[id(spec)]
+  out = _apply_outcomes(spec)
+  if id(spec) in _POOL_IDS:
+    _APPLY_CACHE[id(spec)] = out
+  return out
+
+
+_POOL_IDS = set()
+
+
+def _apply_outcomes(spec) -> list:
   out = []
   for x in APPLY_SAMPLES + [A(x=1), B(x=1, y=2)]:
     try:
@@ -268,6 +283,7 @@ def spec_pool() -> list:
   return out
 
 
+DERIVED = set()         # specs wrapped as Dict field / List element / Schema field: checked in fewer positions
 IDENTITY_EQ = set()     # pool members that Python itself compares / hashes by identity (functools.partial): eq, hash don't-care
 UNPICKLABLE = set()     # ids of pool members that Python cannot pickle by reference (lambdas, nested functions)
 
@@ -297,6 +313,9 @@ def _opaque_pool() -> list:
   lam = None
   for name, v, eqf in spec_pool():
     pool.append((v, eqf))
+    _POOL_IDS.add(id(v))
+    if ':dict_field' in name or ':list_element' in name or ':class_schema' in name:
+      DERIVED.add(id(v))
     if name == 'spec:Any:lambda_transform':
       UNPICKLABLE.add(id(v))
   return pool
